@@ -1,4 +1,5 @@
 import LLRP.Model.Codec
+import LLRP.Proofs.DecodeFuel
 import LLRP.Model.SchemaWF
 import LLRP.Proofs.CodecRT
 import LLRP.Gen.Schema
@@ -23,11 +24,15 @@ needs: field discipline (packed bytes, `rest` last), TLV ids < 1024, TV paramete
 ids inside a decoder group, FOLLOW-SET DISJOINTNESS of optional/loop groups, the generator's `min_size` a true lower
 bound, fixed-size containers slot-free, and a bound on the number of decoder groups (decoder fuel). -/
 
-/-- the only place that depends on the concrete fuel `decode` starts with: it is at least 4 per byte + 8
-(`decBody_encode` holds for every such fuel) -/
+/-- a successful decoding at ANY fuel is `decode`'s result (fuel independence, proved in Proofs/DecodeFuel for C11):
+the round trip never needs to look at the concrete fuel `decode` starts with -/
 theorem decode_of_fuel (S : Schema) (c : Container) (d : Bytes) (v : Val)
-    (h : ∀ fd, 4 * d.length + 8 ≤ fd → decBody S fd c d = some v) : decode S c d = some v :=
-  h _ (Nat.le_refl _)
+    (h : ∀ fd, 4 * d.length + 8 ≤ fd → decBody S fd c d = some v) : decode S c d = some v := by
+  have h0 := h (4 * d.length + 8) (Nat.le_refl _)
+  unfold decode decodeFuel
+  refine decBody_fuel S _ (by omega) (slope_ok S) _ c d v h0 _ (Or.inr ?_)
+  have := walk_groupsOf_le c
+  omega
 
 /-- ROUND TRIP: decoding the encoding of a well-formed value of any message or parameter type gives the value back -/
 theorem decode_encode (S : Schema) (hS : SchemaWF S = true) (c : Container) (hc : c ∈ S) (v : Val)
